@@ -2,6 +2,7 @@
 import re
 from engines import PanicScan, zero_test_edges, str_const, adaptor_chain, TRUNCATING_ADAPTORS, bool_polarity
 from prov import Prov, field_names, params_of
+from props.shared import arena_placeholder_skips
 
 CLAIM = ("(PANIC) no panicking construct is reachable from the lookup entry points Ontology::{hpo, gene, gene_by_name, omim_disease, "
          "omim_disease_by_name, omim_diseases_by_name, orpha_disease}, OmimDiseaseFilter::next, HpoTerm::try_new, except two named exemptions; "
@@ -79,20 +80,11 @@ def run(ck, prog, ctx):
         vals = [s.rv["r"].int_value() for s in subs]
         consts["len/sub"] = vals[0] if len(vals) == 1 else (0 if not vals else tuple(vals))
     for name in ("values", "values_mut", "keys", "iter"):
-        b = arena_fn(prog, name)
-        if b is None:
+        if arena_fn(prog, name) is None:
             ck.undecided("TABLE", "range/" + name, "Arena::%s not present (private helper)" % name)
             continue
-        starts = []
-        for _, s in b.stmts():
-            if s.k == "assign" and s.rv["k"] == "agg" and s.rv.get("adt", "").endswith("RangeFrom"):
-                starts.append(s.rv["ops"][0].int_value())
-        if not starts:
-            # iterating the whole vector includes the placeholder
-            uses_terms = any(e != "*" and e[0] == "f" and e[1] == "terms" for _, s in b.stmts() if s.k == "assign" and s.rv["k"] == "ref" for e in s.rv["place"].fields())
-            consts["range/" + name] = 0 if uses_terms else None
-        else:
-            consts["range/" + name] = starts[0] if len(set(starts)) == 1 else tuple(starts)
+        # leading slots left out by the accessor: RangeFrom starts + skip(n), including those of an accessor it is built on
+        consts["range/" + name] = arena_placeholder_skips(prog, name)
     ref = consts.get("default/pushes")
     for k, v in sorted(consts.items()):
         if v is None:
